@@ -27,7 +27,7 @@ FullM == << <<3>>, <<TRUE>> >>
 \* (-1..4294967295): the upper bound exceeds TLC's integers; it is carried as text for the printer, the specification only
 \* needs its sign class and values up to 2^31-1
 Wide == TInt([c |-> "rng", lb |-> 0 - 1, ub |-> 2147483647, ext |-> FALSE, ubText |-> "4294967295"])
-PZoo == <<
+PBase == <<
   TSeq(<<M(PI(0, 255)), M(PI(0 - 5, 5)), M(TInt(NoCon)), M(PI(0, 65536)), M(PI(0 - 128, 127)), M(TInt(Rng(0, 7, TRUE))),
          M(PI(0 - 2147483647, 2147483647)), M(PI(0, 2147483647)), M(Wide)>>, 9, FALSE),
   TSeq(<<M(TBool), M(TStr("utf8", NoSz)), M(TStr("ia5", NoSz)), M(TOct(NoSz)), M(TBits(NoSz)), M(TNull), M(Enum3), M(TEnum(2, 1, TRUE)), M(I07)>>, 9, FALSE),
@@ -36,7 +36,8 @@ PZoo == <<
   TSeq(<<O(I07), O(TBool), O(TStr("utf8", NoSz)), O(TOct(NoSz)), O(Enum3), O(PI(0 - 5, 5)), M(I07)>>, 7, FALSE),
   TSeq(<<Comp(I07, "def", <<3>>), Comp(TBool, "def", <<TRUE>>), Comp(TStr("utf8", NoSz), "def", <<<<97, 98>>>>), M(I07)>>, 4, FALSE),
   TSeq(<<M(I07), O(TBool), M(TStr("utf8", NoSz)), O(I07)>>, 2, TRUE),
-  TSeq(<<M(TNull), M(I07), O(TNull), M(TBool)>>, 4, FALSE),
+  \* NULL (mandatory and OPTIONAL) in front of OPTIONAL components that carry information when present
+  TSeq(<<M(TNull), M(I07), O(TNull), M(TBool), O(I07), O(TStr("utf8", NoSz)), O(Inner)>>, 7, FALSE),
   TSeq(<<M(TSeqOf(Ch1, NoSz)), M(TSeqOf(Enum3, NoSz)), M(TSeqOf(TOct(NoSz), NoSz)), M(I07)>>, 4, FALSE),
   TSeq(<<M(TSeqOf(AllOpt, NoSz)), M(TChoice(<<AllOpt, TBool>>, 2, FALSE)), O(AllOpt), M(I07)>>, 4, FALSE),
   TSeq(<<M(InnerS), M(TSeqOf(InnerS, NoSz)), M(I07)>>, 3, FALSE),
@@ -45,6 +46,32 @@ PZoo == <<
   \* input classes of open findings
   TSeq(<<M(TSeqOf(TSeqOf(I07, NoSz), NoSz)), M(I07)>>, 2, FALSE),
   TSeq(<<M(ChList), M(I07)>>, 2, FALSE) >>
+
+\* mixed messages: pseudo-randomly composed message types (depth <= 2) over the constructors that have a protobuf mapping
+\* (no list directly in a list, no list as CHOICE alternative: the classes of the open findings)
+PLeaves == <<I07, TBool, TNull, TInt(NoCon), PI(0 - 5, 5), PI(0, 65536), PI(0 - 2147483647, 2147483647), Enum3, TEnum(2, 1, TRUE),
+             TStr("utf8", NoSz), TStr("ia5", NoSz), TOct(NoSz), TBits(NoSz)>>
+RECURSIVE PMixMsg(_, _), PMixField(_, _, _)
+PMixField(q, d, allowList) ==
+  LET kind == IF d >= 2 THEN 1 ELSE Pick(q, 1, 5)            \* 1, 2: scalar, 3: nested message, 4: list, 5: CHOICE
+  IN IF kind = 3 THEN PMixMsg((q * 31 + 7) % 1000003, d + 1)
+     ELSE IF kind = 4 /\ allowList THEN TSeqOf(PMixField((q * 41 + 1) % 1000003, d + 1, FALSE), NoSz)
+     ELSE IF kind = 5
+     THEN LET n == Pick(q, 2, 3) + 1
+          IN TChoice([i \in 1..n |-> PMixField((q * 37 + i) % 1000003, d + 1, FALSE)], n, FALSE)
+     ELSE PLeaves[Pick(q, 6, Len(PLeaves))]
+PMixMsg(q, d) ==
+  LET n == Pick(q, 2, 4)
+      ext == Pick(q, 4, 3) = 1
+      comp(i) == LET t == PMixField((q * 31 + i) % 1000003, d, TRUE)
+                     m == Pick((q * 31 + i) % 1000003, 5, 3)
+                 IN IF m = 3 /\ t = I07 THEN Comp(t, "def", <<3>>)
+                    ELSE IF m = 3 /\ t = TBool THEN Comp(t, "def", <<TRUE>>)
+                    ELSE Comp(t, IF m = 1 THEN "man" ELSE "opt", <<>>)
+  IN TSeq([i \in 1..n |-> comp(i)], IF ext THEN Pick(q, 3, n) ELSE n, ext)
+NPMix == IF N <= 3 THEN 24 ELSE 120
+PMix == [q \in 1..NPMix |-> PMixMsg(q + 500, 0)]
+PZoo == PMix \o PBase
 
 \* hand-picked additional values: empty messages where their presence counts
 EmptyIdx == Len(PZoo) - 4
@@ -57,6 +84,7 @@ PExtra(i) ==
   ELSE << << <<<<FullM, EmptyM, FullM>>>>, <<[i |-> 0, v |-> EmptyM]>>, <<>>, <<5>> >>,
           << <<<<EmptyM, EmptyM>>>>, <<[i |-> 0, v |-> FullM]>>, <<EmptyM>>, <<5>> >>,
           << <<<<EmptyM>>>>, <<[i |-> 1, v |-> TRUE]>>, <<FullM>>, <<0>> >> >>
+
 
 PDevOf(i, Dev) ==
   IF i = Len(PZoo) - 1 /\ "ProtoNestedList" \in Dev THEN "ProtoNestedList"
